@@ -103,7 +103,27 @@ fn conj(mut xs: Vec<F>) -> F {
 pub fn gen_family(r: &mut Rng, n: usize) -> Vec<F> {
     let at = |i: usize| F::Atom(i % n);
     let not = |f: F| F::Not(Box::new(f));
-    match r.below(9) {
+    match r.below(10) {
+        // self-referential compounds: a statement occurs (positively or negatively) in its own
+        // condition next to a small formula over others (exercises the goal-variable handling of the
+        // path cubes and the 'conclude the other value' step of the counting search)
+        9 => (0..n)
+            .map(|i| {
+                if r.chance(2, 3) {
+                    let me = if r.bool() { at(i) } else { not(at(i)) };
+                    let other = gen_f(r, n, 2);
+                    match r.below(3) {
+                        0 => F::And(Box::new(me), Box::new(other)),
+                        1 => F::Or(Box::new(other), Box::new(F::And(Box::new(me), Box::new(at(i + 1))))),
+                        _ => F::Or(Box::new(me), Box::new(other)),
+                    }
+                } else if r.bool() {
+                    at(i + 1)
+                } else {
+                    not(at(i + 2))
+                }
+            })
+            .collect(),
         // converse pairs: the same connective over the same operands in both argument orders
         // (exercises memo tables keyed by operand triples)
         8 => {
